@@ -214,3 +214,55 @@ S(id="UB.lex", props=["C12", "C11"], spec="lex.spec.c", harness="h_yylex", mode=
        "a syntax error reports a line number inside the text",
   assumes=["A2: glibc C-locale ctype table (models/ctype_table.h)",
            "stated drop: token-text writes to the object stack `stoks' are no-ops in this set (covered by OS.top.*); strcmp against \"TERM\" abstracted"])
+
+# ---------------- C13 T.size / C04 P.step ----------------
+S(id="T.size.place", props=["C13", "C12"], spec="tree.spec.c", harness="h_place", mode="L", canaries=3, enforce=["place_translation/place_c"], functions=["place_translation"],
+  what="first translation stored as is; otherwise a NULL-terminated ALT list whose new first alternative is the node passed in (an alternative is never an ALT); "
+       "only node-sized blocks are requested from parse_alloc, only parse_alloc memory and *place are written")
+S(id="T.size.copy", props=["C13", "C12"], spec="tree.spec.c", harness="h_copy_anode", mode="U", loops=True, n_loops=1, enforce=["copy_anode/copy_anode_c"],
+  replace=["place_translation/place_use_c"], functions=["copy_anode"], params={"quick": {"TL": 8}, "thorough": {"TL": 64}},
+  what="one block of sizeof(node) + (trans_len + 1) child slots; node fields and children copied (ghost index), displaced child cleared, NULL terminator kept")
+TREE_B = dict(spec="tree.spec.c", mode="B", dfcc=False, instr=["--drop-unused-functions"], unwind_all=5, rec_unwind=3, timeout=600)
+S(id="P.step.anode", props=["C04"], harness="h_prune_anode", functions=["prune_to_minimal"], bound="one level: abstract node with <= 2 children, each a leaf or an already visited abstract node",
+  what="reported cost = own + children's reported costs (a revisited shared child reports its recorded total); visit mark = -total-1", **TREE_B)
+S(id="P.step.alt", props=["C04"], harness="h_prune_alt", canaries=2, functions=["prune_to_minimal"], bound="one level: ALT list of 2..3 alternatives, each a leaf or an already visited abstract node",
+  what="an ALT list reports the minimum; exactly the minimal alternatives are kept (all parses) or exactly one (one parse); a single survivor is returned bare", **TREE_B)
+S(id="P.restore", props=["C04"], harness="h_traverse", canaries=2, functions=["traverse_pruned_translation"], bound="parent with one child or the same child twice",
+  what="cost fields hold the subtree totals afterwards; a node reached through two parents/slots is restored once", **TREE_B)
+
+# ---------------- supporting static facts (mode S: assumption checks, never counted as proved) ----------------
+S(id="S.flags", props=["C14", "C15", "C17"], mode="S", static="flags", spec="", harness="", bound="syntactic", functions=["yaep_parse"],
+  what="in yaep_parse each *_init () call is immediately followed by its flag assignment and the flags are cleared before setjmp (justifies flag == ghost counter in phase B)")
+S(id="S.oneparse", props=["C14", "C15"], mode="S", static="oneparse", spec="", harness="", bound="syntactic", functions=["make_parse"],
+  what="make_parse restores grammar->one_parse_p unconditionally on its only exit path (settings are not changed by a parse)")
+S(id="S.fmt", props=["C15", "C12"], mode="S", static="fmt", spec="", harness="", bound="syntactic", functions=["yaep_error call sites"],
+  what="every error call site passes a literal format that starts with text (message non-empty)")
+
+# ---------------- C11: description intermediate form ----------------
+DESC = dict(spec="desc.spec.c", dfcc=False, instr=["--drop-unused-functions"])
+S(id="D.codes", props=["C11"], harness="h_codes", mode="B", unwind_all={"quick": 5, "thorough": 6}, rec_unwind=5, params={"quick": {"NR": 3}, "thorough": {"NR": 4}},
+  bound="<= 3 (thorough 4) records over a two-name universe, codes -1 (implicit) or 0..300", functions=["set_sgrammar (tail, rule R4)", "sterm_name_cmp", "sterm_num_cmp"],
+  what="one record per name is left; implicit codes are >= 256, distinct and increase in order of first appearance; a name declared repeatedly with the same explicit code keeps it",
+  assumes=["A2: qsort model (insertion sort); the region starts with code == 256 (static fact from R4: initialiser 256, no assignment before the region)"], **DESC)
+S(id="D.codes.conflict", props=["C11"], harness="h_codes_conflict", mode="B", unwind_all=5, rec_unwind=5, params={"quick": {"NR": 3}}, timeout=600,
+  bound="two records", functions=["set_sgrammar (tail, rule R4)"], what="same name with two different explicit codes is reported as YAEP_REPEATED_TERM_CODE", **DESC)
+S(id="UB.msg.arg", props=["C12", "C11"], harness="h_codes_longname", mode="B", unwind_all=260, rec_unwind=5, params={"quick": {"NR": 3}}, timeout=900,
+  bound="symbol names of 1..140 characters", functions=["set_sgrammar (tail, rule R4)"],
+  what="the name copied into the local buffer for the 'described repeatedly with different code' message is NUL-terminated however long the name is", **DESC)
+S(id="D.replay.term", props=["C11"], harness="h_sread_terminal", mode="L", canaries=2, functions=["sread_terminal"], what="record i delivered unchanged, NULL after the last", **DESC)
+S(id="D.replay.rule", props=["C11"], harness="h_sread_rule", mode="L", canaries=2, functions=["sread_rule"], what="rule i delivered unchanged, NULL after the last", **DESC)
+S(id="P.step.base", props=["C04"], spec="tree.spec.c", harness="h_prune_base", mode="L", canaries=2, enforce=["prune_to_minimal/prune_base_c"],
+  cbmc=["--unwind", "2", "--unwinding-assertions"], functions=["prune_to_minimal"],
+  what="base cases, full domain: a NIL/ERROR/TERM node costs 0; an already processed (shared) abstract node reports its recorded total and nothing else is written "
+       "(the recursive branches are unreachable under this precondition: unwinding assertions prove it)")
+
+# ---------------- C10 / C14: yaep_read_grammar, first region ----------------
+S(id="RG.prefix", props=["C10", "C14", "C15"], spec="rg.spec.c", harness="h_rg_prefix", mode="U", loops=True, n_loops=1, canaries=2,
+  enforce=["verif_rg_prefix/rg_prefix_c"], replace=["verif_error_exit/err_rg_c", "yaep_empty_grammar/empty_grammar_c", "symb_find_by_repr/find_repr_c",
+                                                     "symb_find_by_code/find_code_c", "symb_add_term/add_term_c"],
+  functions=["yaep_read_grammar (first region, rule R5: switch, setjmp test, emptying, terminal loop)"],
+  what="from ARBITRARY file-scope state and any previous content of the object: the argument becomes the current grammar before anything can fail, is emptied and marked undefined "
+       "before the first callback; every error exit leaves it undefined and names a defect really delivered (negative code / name found / code found); a terminal is added only "
+       "when new by name and code, exactly as delivered; on normal end no defect was delivered",
+  assumes=["A7: symb_find_by_repr / symb_find_by_code answer 'found' iff the name / code was added before (C19 HT.* + symb_add_term, composed on paper)",
+           "R5: the region is cut from yaep_read_grammar on every run; the rest of the function (rule intake, checks) is not covered by this set"])
